@@ -40,7 +40,7 @@ ASSUMPTIONS = [
     "calls outside the property's domain (t<=0, sigma<=0, M<S, parameters outside the stated ranges) are not judged here (see C18)",
 ]
 DECIDING = ["price.european", "price.european_binary", "price.american_binary", "price.lookback", "module.plumbing"]
-REQUIRED_BRANCHES = ["european.put", "european_binary.put", "american_binary.max>=strike", "american_binary.max<strike",
+REQUIRED_BRANCHES = ["american_binary.max==strike>spot", "european.put", "european_binary.put", "american_binary.max>=strike", "american_binary.max<strike",
                      "lookback.max>=strike", "lookback.max<strike", "strike!=1"]
 
 _CTX = None
@@ -95,6 +95,8 @@ def judge(ctx, mon, kind, out, s, tt, v, K, call, m=None, sig=(), f32_scalars=Fa
         elif kind == "american_binary":
             want = mpbs.american_binary(sv, mv, tv, vv)
             ctx.branch("american_binary." + ("max>=strike" if mv >= 0 else "max<strike"))
+            if mv == 0 and sv < 0:
+                ctx.branch("american_binary.max==strike>spot")
         else:
             want = mpbs.lookback(sv, mv, tv, vv, Kv)
             ctx.branch("lookback." + ("max>=strike" if mv >= 0 else "max<strike"))
@@ -194,6 +196,8 @@ def gen_points(rng, dtype, n):
     mk = rng.random(n)
     m = np.where(mk < 0.25, s, np.where(mk < 0.6, s + rng.uniform(0, 0.5, n), np.maximum(s, rng.uniform(-0.2, 0.3, n))))
     m = np.maximum(m, s)
+    # the running maximum sitting exactly on the strike (option struck at the initial spot, spot has fallen since)
+    m = np.where((rng.random(n) < 0.15) & (s < 0), 0.0, m)
     return t(s, dtype), t(tt, dtype), t(v, dtype), t(m, dtype)
 
 
@@ -249,7 +253,7 @@ def drv_module(ctx, k, rng):
     else:
         call = True
         d = LookbackOption(stock, call=True, strike=K, maturity=mat)
-    init = (float(K * math.exp(rng.uniform(-0.2, 0.2))),) if isinstance(stock, BrownianStock) else None
+    init = (float(K * math.exp(rng.uniform(-0.2, 0.2))) if rng.random() < 0.5 else K,) if isinstance(stock, BrownianStock) else None
     d.simulate(n_paths=2, init_state=init)
     m = BlackScholes(d)
     mon = "module.plumbing"
